@@ -119,6 +119,14 @@ func accepted(in []kv) []kv {
 	return out
 }
 
+func itemEntries(items []item) []kv {
+	out := make([]kv, 0, len(items))
+	for _, it := range items {
+		out = append(out, kv{it.k, nil})
+	}
+	return out
+}
+
 // ---------------------------------------------------------------- one case's scratch state
 
 type env struct {
@@ -266,6 +274,9 @@ func (e *env) buildTable(fno int, items []item) *built {
 		}
 	}
 	res.entries = exp
+	if all := accepted(itemEntries(items)); len(all) != len(exp) {
+		c.Fail("harness-spec-mismatch", "incremental and batch forms of the specification disagree")
+	}
 	res.min, res.max, res.size = b.MinKey(), b.MaxKey(), b.Size()
 	e.closeBuilder(b, fno, res, len(res.entries) > 0)
 	return res
@@ -762,11 +773,15 @@ func checkMerge(c *core.Ctx, got []kv, inputs [][]kv, tagged bool) {
 	for _, e := range got {
 		count[fmt.Sprintf("%d/%x", e.k, e.v)]--
 	}
+	var off []string
 	for k, n := range count {
 		if n != 0 {
-			c.Fail("merge-not-a-permutation", fmt.Sprintf("entry %s: %+d", k, -n))
-			break
+			off = append(off, fmt.Sprintf("entry %s: %+d", k, -n))
 		}
+	}
+	if len(off) > 0 {
+		sort.Strings(off)
+		c.Fail("merge-not-a-permutation", off[0])
 	}
 	if tagged { // value[0] = input number: the sub-sequence of one input must be that input
 		per := make([][]kv, len(inputs))
